@@ -103,10 +103,10 @@ def _c18_hb(reg, opts):
 
 
 PROPS = {
-    'C06': PropSpec('C06', contracts=FRAME_ENV + [(FRM + 'unmarshal', UNMARSHAL_RETURNS | {'bad-frame-end', 'heartbeat-incomplete-or-bad-end'})], lemmas=[L + 'c06_trailing_bytes'], floor=200,
+    'C06': PropSpec('C06', contracts=FRAME_ENV + [(FRM + 'unmarshal', UNMARSHAL_RETURNS | {'bad-frame-end', 'heartbeat-incomplete-or-bad-end'}), FRM + 'unmarshal(env)'], lemmas=[L + 'c06_trailing_bytes'], floor=200,
                     assumptions=['method and content-header payload decoders enter through their total contracts '
                                  '(any frame object of the right kind, or UnmarshalingException)']),
-    'C07': PropSpec('C07', contracts=FRAME_ENV + [(FRM + 'unmarshal', UNMARSHAL_INCOMPLETE)], lemmas=[L + 'c07_prefix'], floor=200),
+    'C07': PropSpec('C07', contracts=FRAME_ENV + [(FRM + 'unmarshal', UNMARSHAL_INCOMPLETE), FRM + 'unmarshal(env)'], lemmas=[L + 'c07_prefix'], floor=200),
     'C18': PropSpec('C18', contracts=FRAME_ENV + [(FRM + 'unmarshal', {'protocol-header', 'heartbeat', 'body'})],
                     lemmas=[L + 'c18_body_roundtrip', L + 'c18_body_len', L + 'c18_heartbeat', L + 'c18_protocol_header'],
                     ground=['C18.heartbeat-constant'], floor=200),
